@@ -145,3 +145,17 @@ void h_set_unbound(void) {
   VASSERT(h.f6 == 1, "nesting unchanged");
   VWITNESS("any");
 }
+
+/* ---- C05: overflowed() travels with the content through swap / move */
+#ifndef SWAPHOW
+#define SWAPHOW 0
+#endif
+void h_swap_overflow(void) {
+  int64_t v = (int64_t)vin_u64(); VASSUME(v > 2147483647LL || v < -2147483648LL); int32_t a = (int32_t)vin_u32();
+  struct S_Hist h1, h2; memset(&h1, 0, sizeof h1); memset(&h2, 0, sizeof h2);
+  w_swap_overflow((uint64_t)v, (uint32_t)a, SWAPHOW, &h1, &h2);
+  VASSERT(h1.f5 == 0 && h1.f3 == 1 && h2.f5 == 1 && h2.f3 == 0, "before: d1 failed and is flagged, d2 is complete and not flagged");
+  VASSERT(h1.f2 == 0 && h2.f2 == 1, "after the exchange the flag is with the content that suffered the failure");
+  VASSERT(h1.f0 == 1 && (int32_t)h1.f8.e[0] == a && h2.f0 == 1, "contents exchanged");
+  VWITNESS("any");
+}
